@@ -204,6 +204,11 @@ func (tree *ParserT) parseExpression(exec, incLogicalOps bool) error {
 			if err != nil {
 				return err
 			}
+			if branch.charPos < 0 {
+				// nothing follows the '(': without this the cursor steps back onto the
+				// '(' and the parser never terminates
+				return raiseError(tree.expression, nil, tree.charPos, "missing closing parenthesis, ')'")
+			}
 
 			if exec {
 				dt, err := branch.executeExpr()
